@@ -11,6 +11,9 @@ fn evs_json(evs: &[Event]) -> J {
     J::A(evs.iter().take(12).map(|e| J::s(trapemu::fmt_event(e))).collect())
 }
 
+static STEPPED: core::sync::atomic::AtomicU64 = core::sync::atomic::AtomicU64::new(0);
+static PUSHFQS: core::sync::atomic::AtomicU64 = core::sync::atomic::AtomicU64::new(0);
+
 struct Tree {
     kids: Vec<Tree>,
     id: u64,
@@ -84,20 +87,46 @@ fn count_nodes(t: &Tree) -> u64 {
     1 + t.kids.iter().map(count_nodes).sum::<u64>()
 }
 
-fn tree_case(rep: &mut Report, r: &mut Rng, initial_if: bool, maxdepth: u32, maxnodes: u32) {
+fn tree_case(rep: &mut Report, r: &mut Rng, initial_if: bool, maxdepth: u32, maxnodes: u32, step_mode: bool) {
     rep.eval();
     let mut budget = maxnodes;
     let mut next_id = r.next() >> 8;
     let t = gen_tree(r, maxdepth, &mut budget, &mut next_id);
     let nodes = count_nodes(&t);
     let regs = trapemu::regs();
-    regs.mirror_if = true;
+    // two ways to let the code under test see the emulated flag: the cfg-gated overlay applied after the real
+    // pushfq (hook H1), or - without any hook - single-stepping and emulating every pushfq itself
+    regs.mirror_if = !step_mode;
+    if step_mode {
+        x86_64::verif_hooks::RFLAGS_IF_OVERLAY.store(0, Ordering::Relaxed);
+    }
     regs.set_if(initial_if);
     let mut o = Obs { bodies_run: 0, saw_if_set_inside: 0, are_enabled_wrong_inside: 0, flag_not_restored: 0, result_wrong: 0, nodes: 0, max_depth: 0 };
-    let (_, evs) = trapemu::trapped(|| run_tree(&t, 0, &mut o));
+    let (_, evs_all) = trapemu::trapped(|| {
+        if step_mode {
+            trapemu::step_begin();
+        }
+        let v = run_tree(&t, 0, &mut o);
+        if step_mode {
+            let n = trapemu::step_end();
+            STEPPED.fetch_add(n, Ordering::Relaxed);
+        }
+        v
+    });
+    let pushfqs = evs_all.iter().filter(|e| e.kind == K::Pushfq).count();
+    PUSHFQS.fetch_add(pushfqs as u64, Ordering::Relaxed);
+    let evs: Vec<Event> = evs_all.into_iter().filter(|e| e.kind != K::Pushfq).collect();
     let after = trapemu::regs().iflag;
     let ctx = |evs: &[Event]| J::obj(vec![("initial_if", J::Bool(initial_if)), ("nodes", J::U(nodes)), ("depth", J::U(o.max_depth as u64)), ("final_if", J::Bool(after)), ("events", evs_json(evs)), ("n_events", J::U(evs.len() as u64))]);
-    let ifs = if initial_if { "IF=1" } else { "IF=0" };
+    let ifs = match (initial_if, step_mode) {
+        (true, false) => "IF=1",
+        (false, false) => "IF=0",
+        (true, true) => "IF=1|single-step",
+        (false, true) => "IF=0|single-step",
+    };
+    if step_mode && pushfqs == 0 {
+        rep.violation("without_interrupts|single-step|no-pushfq-observed(flag-never-read)", ctx(&evs));
+    }
     if o.bodies_run != nodes {
         rep.violation(&format!("without_interrupts|{}|closure-not-run-exactly-once", ifs), ctx(&evs));
     }
@@ -187,8 +216,17 @@ pub fn run(a: &Args, rep: &mut Report) {
             1..=5 => (8, 400),
             _ => (1 + r.below(6) as u32, 1 + r.below(40) as u32),
         };
-        tree_case(rep, &mut r, initial, d, m);
+        tree_case(rep, &mut r, initial, d, m, false);
     }
+    // single-step mode: real pushfq emulation, no hook involved (small trees: every instruction traps)
+    let n = a.budget(300, 60_000);
+    for _ in 0..n {
+        let initial = r.chance(2, 3);
+        let (d, m) = (1 + r.below(4) as u32, 1 + r.below(12) as u32);
+        tree_case(rep, &mut r, initial, d, m, true);
+    }
+    rep.count("single_stepped_instructions", STEPPED.load(Ordering::Relaxed));
+    rep.count("pushfq_emulated", PUSHFQS.load(Ordering::Relaxed));
     // overlay off again so nothing else in the process is affected
     trapemu::regs().mirror_if = false;
     x86_64::verif_hooks::RFLAGS_IF_OVERLAY.store(0, Ordering::Relaxed);
